@@ -1,8 +1,9 @@
 """C16 — connection lifecycle: login, failure, stream error, keep-alive and reconnect."""
+import random
 import threading
 import time
 
-from vf import gen
+from vf import gen, inject
 
 ID = "C16"
 LEVEL = "exploration"
@@ -20,9 +21,10 @@ ASSUMPTIONS = ["a disconnect request is only issued while a connection is up or 
                "unknown stream-error kinds raise by design and are not generated",
                "a 'disconnected' announcement for an attempt that never came up is not a refutation",
                "the first login (key upload + reconnect) happens before the judged history starts",
-               "the real socket/asyncore dispatchers are exercised separately over loopback in the thorough tier"]
+               "the real socket/asyncore dispatchers are driven through 6 scripted lifecycles each over loopback TCP (peer close, local disconnect, refused connect, login failure, stream error with automatic reconnect, re-login); a bare timeout there is reported as a violation only together with the observed announcement counts"]
 REQUIRED = ["histories", "events", "checkpoints", "ev:connected", "ev:success", "ev:failure", "ev:stream-error", "ev:tick", "ev:pong",
-            "ev:connected-held", "ev:release-handshake", "ev:socket-error", "ev:peer-close", "ev:disconnect-request", "auto_reconnects", "ping_timeouts", "pings_seen", "states_visited"]
+            "ev:connected-held", "ev:release-handshake", "ev:socket-error", "ev:peer-close", "ev:disconnect-request", "auto_reconnects", "ping_timeouts", "pings_seen", "states_visited",
+            "real_cases", "real_ok"]
 TIMEOUT = {"quick": 600, "thorough": 7200}
 
 
@@ -410,6 +412,175 @@ def one_history(acc, seed, tag):
         W.close()
 
 
+
+# ---------------------------------------------------------------------------------------------
+# real dispatchers over loopback
+REAL_SCENARIOS = ["peer-close", "local-disconnect", "connect-refused", "stream-error-reconnect", "relogin", "quick-relogin", "failure"]
+
+
+def real_case(acc, seed, tag, dispatcher_name, scenario):
+    """One scripted lifecycle through the library's real socket/asyncore dispatcher against a loopback server thread."""
+    from vf import realnet
+    from yowsup.layers.network import YowNetworkLayer
+    from yowsup.layers.auth import YowAuthenticationProtocolLayer
+    from yowsup.layers.interface import YowInterfaceLayer
+    r = gen.rng(seed, ID, tag)
+    disp = YowNetworkLayer.DISPATCHER_SOCKET if dispatcher_name == "socket" else YowNetworkLayer.DISPATCHER_ASYNCORE
+    srv = realnet.LoopServer(auto_success=(scenario != "failure"))
+    srv.start()
+    port = srv.port
+    if scenario == "connect-refused":
+        srv.stop()                      # nobody listens on that port any more
+        srv.join(3)                     # (the listening socket is only gone once the accept loop has left it)
+    w = {"tag": tag, "dispatcher": dispatcher_name, "scenario": scenario}
+    acc.count("real_cases")
+    acc.count("real:%s:%s" % (dispatcher_name, scenario))
+    acc.case(["real", dispatcher_name, scenario, tag], nontrivial=True)
+    props = {YowInterfaceLayer.PROP_RECONNECT_ON_STREAM_ERR: scenario == "stream-error-reconnect"}
+    c = realnet.RealClient("real_%s" % tag.replace("/", "_"), port, disp, props)
+    C, D, A = YowNetworkLayer.EVENT_STATE_CONNECTED, YowNetworkLayer.EVENT_STATE_DISCONNECTED, YowAuthenticationProtocolLayer.EVENT_AUTHED
+
+    def bad(key, what):
+        acc.violation("real:%s:%s" % (key, scenario), "%s dispatcher, scenario %s: %s" % (dispatcher_name, scenario, what), dict(w, connected=c.events(C), disconnected=c.events(D),
+                      authed=c.events(A), thread_errors=c.thread_errors[:2], server_states=[x.srv.state for x in srv.conns]))
+        return False
+
+    def threads_done(timeout=15.0):
+        t0 = time.time()
+        while time.time() - t0 < timeout:
+            if not any(t.is_alive() for t in c.net_threads):
+                return True
+            time.sleep(0.005)
+        return False
+
+    def threads_done_first():
+        return not c.net_threads[0].is_alive()
+
+    yp = r.choice([0.0, 0.0, 0.1, 0.3])
+    yi = inject.YieldInjector(random.Random(r.randrange(1 << 30)), ("dispatcher_asyncore.py", "dispatcher_socket.py", "asyncore/__init__.py", "network/layer.py"), p=yp) if yp else None
+    if yi:
+        yi.__enter__()
+    w["yield_p"] = yp
+    try:
+        c.start_loop()
+        c.connect_async()
+        if scenario == "connect-refused":
+            if not threads_done():
+                return bad("connect-hangs", "connect() to a closed port did not return")
+            time.sleep(0.05)
+            if c.events(C) != 0:
+                return bad("connected-announced", "a refused connection was announced as connected")
+            if c.events(D) > 1:
+                return bad("disconnected-twice", "a refused connection was announced as disconnected %d times" % c.events(D))
+            if c.net.getStatus():
+                return bad("status", "network layer reports connected after a refused connection")
+            acc.count("real_ok")
+            return True
+        if scenario == "failure":
+            if not c.wait(lambda: len(srv.conns) == 1 and srv.conns[0].srv.state == "transport"):
+                return bad("no-login", "the login attempt did not reach the server")
+            srv.conns[0].send_stanza(("failure", {"reason": "not-authorized"}, [], None))
+            if not c.wait(lambda: c.events(D) >= 1 and any(k == "failure" for k, e in c.app_log)):
+                return bad("failure-not-handled", "a login failure was not delivered upward / did not close the connection")
+            if not threads_done():
+                return bad("netthread-hangs", "the network thread did not end after the library closed the connection")
+            if c.events(C) != 1 or c.events(D) != 1:
+                return bad("announcements", "connected %d / disconnected %d (expected 1 / 1)" % (c.events(C), c.events(D)))
+            acc.count("real_ok")
+            return True
+        if not c.wait(lambda: c.events(A) >= 1):
+            return bad("no-auth", "login did not complete (connected %d, server %s)" % (c.events(C), [x.srv.state for x in srv.conns]))
+        if c.events(C) != 1:
+            return bad("connected-count", "connected announced %d times" % c.events(C))
+        # some traffic both ways over the real socket
+        from yowsup.layers.protocol_iq.protocolentities import PingIqProtocolEntity
+        n0 = len(srv.conns[0].stanzas)
+        for _ in range(3):
+            c.app.toLower(PingIqProtocolEntity())
+        if not c.wait(lambda: len(srv.conns[0].stanzas) >= n0 + 3 or srv.conns[0].srv.state == "error"):
+            return bad("c2s-lost", "stanzas written through the real dispatcher did not arrive")
+        if srv.conns[0].srv.state == "error":
+            return bad("c2s-corrupt", "server cannot decrypt the client's stream: %s" % srv.conns[0].srv.errors)
+        if scenario in ("peer-close", "relogin") or (scenario == "quick-relogin" and r.random() < 0.3):
+            srv.close_conn(srv.conns[0])
+        elif scenario in ("local-disconnect", "quick-relogin"):
+            c.app.disconnect()
+        elif scenario == "stream-error-reconnect":
+            srv.conns[0].send_stanza(("stream:error", {}, [("ack", {}, [], None)], None))
+        if not c.wait(lambda: c.events(D) >= 1):
+            return bad("no-disconnected", "the connection went down but no disconnected announcement was made")
+        if scenario == "stream-error-reconnect":
+            # the interface layer reconnects by itself from the loop thread (which stays inside connect() meanwhile)
+            t0 = time.time()
+            while time.time() - t0 < 15 and not (len(srv.conns) >= 2 and srv.conns[1].srv.state == "transport" and c.events(A) >= 2):
+                time.sleep(0.01)
+            if len(srv.conns) < 2:
+                return bad("no-auto-reconnect", "no automatic reconnect after a stream error with the option on")
+            if srv.conns[1].srv.state != "transport":
+                return bad("reconnect-login", "the automatic reconnect did not start a fresh login (server state %s, errors %s)" % (srv.conns[1].srv.state, srv.conns[1].srv.errors))
+            if c.events(C) != 2 or c.events(D) != 1:
+                return bad("announcements", "connected %d / disconnected %d after auto-reconnect (expected 2 / 1)" % (c.events(C), c.events(D)))
+            srv.close_conn(srv.conns[1])
+            acc.count("real_ok")
+            return True
+        if scenario == "quick-relogin":
+            # the application reconnects at once from another thread, while the thread that ran the first connection may
+            # not yet have returned from connect(); the new connection must be served by its own thread only
+            # (once the down announcement has travelled through every layer, as an application's own handler would see it)
+            c.wait(lambda: c.probe_top.event_names().count(D) >= 1, 5)
+            c.connect_async()
+            if not c.wait(lambda: c.events(A) >= 2 or c.events(D) >= 2, 10):
+                return bad("relogin", "second login right after a disconnect did not complete (server states %s)" % [x.srv.state for x in srv.conns])
+            t0 = time.time()
+            k = 0
+            while time.time() - t0 < 1.6 and c.events(D) < 2:
+                # server-to-client traffic: every frame must be read by exactly one thread
+                srv.conns[-1].send_stanza(("ib", {"from": "s.whatsapp.net"}, [("dirty", {"type": "groups", "timestamp": str(1600000000 + k)}, [], None)], None))
+                k += 1
+                time.sleep(0.01)
+            if c.events(D) >= 2:
+                return bad("spurious-disconnect", "the second connection was announced as down although neither side closed it (server state %s, thread errors %s)"
+                           % (srv.conns[-1].srv.state, c.thread_errors[:1]))
+            if not threads_done_first():
+                return bad("old-thread-lives", "the thread of the first connect() is still running 1.6 s after its connection closed")
+            acc.count("real_quick_relogin_frames", k)
+            c.app.disconnect()
+            if not c.wait(lambda: c.events(D) >= 2) or not threads_done():
+                return bad("relogin-close", "second connection did not close cleanly")
+            if c.events(C) != 2 or c.events(D) != 2:
+                return bad("announcements", "connected %d / disconnected %d (expected 2 / 2)" % (c.events(C), c.events(D)))
+            acc.count("real_ok")
+            return True
+        if not threads_done():
+            return bad("netthread-hangs", "the network thread did not end after the connection went down")
+        time.sleep(0.05)
+        if c.events(D) != 1:
+            return bad("disconnected-count", "disconnected announced %d times for one connection" % c.events(D))
+        if c.net.getStatus():
+            return bad("status", "network layer still reports connected")
+        if scenario == "relogin":
+            c.connect_async()
+            if not c.wait(lambda: c.events(A) >= 2):
+                return bad("relogin", "second login over a new connection did not complete (server states %s)" % [x.srv.state for x in srv.conns])
+            if len(srv.conns) != 2 or srv.conns[1].srv.variant != "IK":
+                return bad("relogin-variant", "second login did not resume with the stored server key")
+            c.app.disconnect()
+            if not c.wait(lambda: c.events(D) >= 2) or not threads_done():
+                return bad("relogin-close", "second connection did not close cleanly")
+            if c.events(C) != 2 or c.events(D) != 2:
+                return bad("announcements", "connected %d / disconnected %d (expected 2 / 2)" % (c.events(C), c.events(D)))
+        if c.thread_errors:
+            return bad("thread-exception:%s" % c.thread_errors[0][1], "exception in a network/loop thread: %s" % (c.thread_errors[0],))
+        acc.count("real_ok")
+        return True
+    finally:
+        if yi:
+            yi.__exit__()
+            acc.count("real_yields", yi.yields)
+        c.stop_loop()
+        srv.stop()
+
+
 def patch_server():
     """Keep-alive pings are answered only on a 'pong' event in this check."""
     from vf import world
@@ -437,13 +608,24 @@ def patch_server():
 def shards(tier, seed, nworkers):
     q = tier == "quick"
     nsh = 6 if q else nworkers
-    return [{"kind": "histories", "shard": i, "n": (300 if q else 30000) // nsh} for i in range(nsh)]
+    specs = [{"kind": "histories", "shard": i, "n": (300 if q else 30000) // nsh} for i in range(nsh)]
+    # real dispatchers over loopback: asyncore keeps one process-wide socket map, so one shard (process) per dispatcher kind and repetition
+    reps = 1 if q else 12
+    for dname in ("socket", "asyncore"):
+        for k in range(reps):
+            specs.append({"kind": "real", "dispatcher": dname, "rep": k, "timeout": 600})
+    return specs
 
 
 def run(spec, acc):
     from vf import env
     env.shim_thirdparty()
     patch_server()
+    if spec["kind"] == "real":
+        for sc in REAL_SCENARIOS:
+            real_case(acc, spec["seed"], "real/%s/%d/%s" % (spec["dispatcher"], spec["rep"], sc), spec["dispatcher"], sc)
+        acc.sample({"real_dispatcher": spec["dispatcher"], "scenarios": REAL_SCENARIOS})
+        return
     for i in range(spec["n"]):
         tag = "h/%d/%d" % (spec["shard"], i)
         w = one_history(acc, spec["seed"], tag)
@@ -455,4 +637,8 @@ def replay(spec, acc):
     from vf import env
     env.shim_thirdparty()
     patch_server()
-    one_history(acc, spec["seed"], spec["witness"]["tag"])
+    tag = spec["witness"]["tag"]
+    if tag.startswith("real/"):
+        real_case(acc, spec["seed"], tag, spec["witness"]["dispatcher"], spec["witness"]["scenario"])
+        return
+    one_history(acc, spec["seed"], tag)
